@@ -1,12 +1,12 @@
 SPECIFICATION Spec
 CONSTANTS
   Contacts = {"c1"}
-  Kinds = {"good", "bad"}
-  OpKinds = {"en", "dis", "rs", "enq", "blk", "unb", "sent"}
-  MaxOps = 4
+  Kinds = {"good"}
+  OpKinds = {"en", "dis", "rs"}
+  MaxOps = 5
   MaxSeed = 2
-  MaxLk = 3
-  MaxGen = 2
+  MaxLk = 2
+  MaxGen = 3
   WithRefused = FALSE
   ExitCancelsAny = TRUE
   OfferIgnoresCancel = TRUE
